@@ -137,3 +137,25 @@ func concurrently(n int, seed uint64, f func(g int, r *rand.Rand) string) string
 	}
 	return ""
 }
+
+// truncInts returns integers far outside [-span-1, span+1] whose low 8, 16,
+// 31, 32, 33, 48 or 62 bits fall inside (or right next to) that range: an
+// argument that is narrowed to a smaller integer type before it is
+// range-checked would land on a valid index.
+func truncInts(span int) []int {
+	var out []int
+	seen := map[int]bool{}
+	for _, w := range []uint{8, 16, 31, 32, 33, 48, 62} {
+		for _, m := range []int{1, 2, 3, -1, -2} {
+			base := m << w
+			for _, d := range []int{-span - 1, -span, -span / 2, -1, 0, 1, span / 2, span - 1, span, span + 1} {
+				v := base + d
+				if (v > span+1 || v < -span-1) && !seen[v] {
+					seen[v] = true
+					out = append(out, v)
+				}
+			}
+		}
+	}
+	return out
+}
